@@ -209,6 +209,8 @@ type World struct {
 	podOpens    map[int][]openEvent     // pod idx -> socket opens by its ADD requests
 	portPod     map[string]int          // proto/port -> pod idx that was last given the port
 	podEdited   map[int]bool            // somebody removed the pod's annotations during the run
+	gcTriggered map[string]bool         // ids that had a file in a configured gc dir when faults stopped (C17, port dir not configured)
+	portValid   map[string]bool         // ids whose port file held a readable, non-empty port list at that moment
 	baseNAT     []string // NAT lines after the first successful start
 	preStart    []string
 	syncOK      int
@@ -242,7 +244,7 @@ func (w *World) armed(p string) bool { return w.prop == p }
 func NewWorld(s *core.Sim, prop string, cfg *Config, solo *SoloSpec) *World {
 	w := &World{S: s, C: s.C, prop: prop, prof: profileFor(prop), solo: solo, byID: map[string]*Container{}, cur: map[int]*Container{},
 		made: map[int]int{}, reqs: map[string]*Request{}, attempts: map[string]int{}, leftovers: map[string]*Leftover{},
-		gcBusy: map[string]*core.Task{}, gcState: map[*core.Task]*gcTaskState{}, halfWritten: map[string]bool{}, rawBusy: map[string]*core.Task{}, podChains: map[int]map[string]bool{}, podBase: map[int]map[string]int{}, podOpens: map[int][]openEvent{}, portPod: map[string]int{}, podEdited: map[int]bool{}}
+		gcBusy: map[string]*core.Task{}, gcState: map[*core.Task]*gcTaskState{}, halfWritten: map[string]bool{}, rawBusy: map[string]*core.Task{}, podChains: map[int]map[string]bool{}, podBase: map[int]map[string]int{}, podOpens: map[int][]openEvent{}, portPod: map[string]int{}, podEdited: map[int]bool{}, gcTriggered: map[string]bool{}, portValid: map[string]bool{}}
 	c := w.C
 	if cfg == nil {
 		cfg = genConfig(c, prop)
@@ -414,7 +416,7 @@ func (w *World) StartProcess() {
 	w.startErr = ""
 	w.initFaultsAtStart = w.initFaults
 	inst := w.inst
-	p := startParams{JSONConfigPath: jsonConfigPath, ConfDir: confDir, CNIPaths: []string{galaxyCNIPath}, SetupIPtables: w.prof.SetupIPT, RunGC: w.prof.RealGCRun}
+	p := startParams{JSONConfigPath: jsonConfigPath, ConfDir: confDir, CNIPaths: []string{galaxyCNIPath}, SetupIPtables: w.prof.SetupIPT, RunGC: w.prof.RealGCRun, GCDirs: strings.Join(w.gcDirsCfg(), ",")}
 	w.preStart = w.Kern.Lines("nat")
 	t := w.S.Spawn(fmt.Sprintf("init#%d", w.proc), w.proc, func() { startDaemon(inst, p) })
 	t.Tag = "init"
@@ -882,4 +884,21 @@ func (w *World) createLeftoverPod(lo *Leftover) {
 		"spec":     map[string]interface{}{"nodeName": nodeName, "containers": []interface{}{map[string]interface{}{"name": "c"}}},
 		"status":   map[string]interface{}{"phase": "Running", "containerStatuses": statuses}}
 	w.mustCreate("pods", pod)
+}
+
+// gcDirsCfg: the directories the daemon's collectors are configured to walk.
+func (w *World) gcDirsCfg() []string {
+	if w.cfg.GCDirsFlag == "" {
+		return gcDirs
+	}
+	return strings.Split(w.cfg.GCDirsFlag, ",")
+}
+
+func (w *World) portDirConfigured() bool {
+	for _, d := range w.gcDirsCfg() {
+		if d == gcDirs[2] {
+			return true
+		}
+	}
+	return false
 }
